@@ -1,6 +1,7 @@
 """C15 - implementation side: runs an operation history against the working tree of pySigma and
 reports, per operation, the API-observable result plus the internal state components the model
 tracks; then repeats the last operation (the probe) in a fresh, interpreter-equivalent setup."""
+from impl.excname import exc_name
 from collections import defaultdict
 import copy
 import json
@@ -337,7 +338,7 @@ def _plain(v):
     return json.dumps(v, sort_keys=True, default=str)
 
 def err(e):
-    return ["err", type(e).__name__, isinstance(e, SigmaError)]
+    return ["err", exc_name(e), isinstance(e, SigmaError)]
 
 def canon_fm(fm):
     return sorted([("" if k is None else k), sorted(v)] for k, v in fm.items())
@@ -438,7 +439,7 @@ class World:
                 out["r"] = ["q", [x if isinstance(x, str) else repr(x) for x in (q if isinstance(q, list) else [q])]]
             except Exception as e:  # noqa
                 out["r"] = err(e)
-            out["errs"] = [type(e).__name__ for _, e in bk.errors[nerr:]] if bk is not None else []
+            out["errs"] = [exc_name(e) for _, e in bk.errors[nerr:]] if bk is not None else []
             out["snap"] = self.snap(b)
         else:
             raise ValueError(kind)
